@@ -114,14 +114,14 @@ fn c05_body_on_repository_vector() {
     let mut g = Lcg(17);
     for q in 0..79u8 {
         vdet::sym::load(vec![vec![q]]);
-        vdet::c05::pwb_iff_body(&PWB_ODD);
+        vdet::c05::pwb_iff_body(&PWB_ODD, &[]);
     }
     for _ in 0..50_000 {
         let mut b = PWB_ODD;
         let i = (g.next() % 104) as usize;
         b[i] = g.next() as u8;
         vdet::sym::load(vec![vec![(g.next() % 79) as u8]]);
-        vdet::c05::pwb_iff_body(&b);
+        vdet::c05::pwb_iff_body(&b, &[]);
     }
 }
 
